@@ -21,7 +21,7 @@ TRUSTED = [
 ]
 ASSUMPTIONS = [
     "MemoryError / RecursionError / KeyboardInterrupt are not modelled (a corrupted pickle length field can raise MemoryError: outside `except Exception` only for BaseException)",
-    "body integrity: nothing ties the pickled body to the header, a corrupted-but-loadable body is served (known finding F14)",
+    "the digest line protects the body against damage, not against a deliberate rewrite of both (the cache is not an authentication mechanism)",
     "a recorded file that can no longer be read is ignored by verify_used_files (as the code documents)",
 ]
 
@@ -139,6 +139,9 @@ def register(reg):
     reg.contract('FS.open', assumed=True, params={'name': 'str', 'mode': 'str'}, returns='CacheFile',
                  raises={'FileNotFoundError': [], 'OSError': []}, ensures=['fresh(result)'])
     reg.contract('CacheFile.readline', assumed=True, kind='method', params={'self': 'CacheFile'}, returns='str')
+    reg.contract('CacheFile.read', assumed=True, kind='method', params={'self': 'CacheFile'}, returns='str')
+    reg.contract('BytesIO', assumed=True, params={'data': 'str'}, returns='CacheFile', ensures=['fresh(result)', 'CONTENT(result) == data'])
+    reg.specfun('CONTENT', [('f', 'CacheFile')], 'str', doc='the bytes an in-memory file was created from')
     reg.contract('pickle.load', assumed=True, params={'f': 'CacheFile'}, returns='any',
                  raises={'Exception': []})            # truncated / corrupted streams: any Exception subclass
     reg.contract('verify_used_files/any', assumed=True, params={'file_hashes': 'any'}, returns='bool', raises={'Exception': []},
@@ -150,12 +153,14 @@ def register(reg):
                  params={'self': 'Lark', 'options': 'dict[str,any]', 'cache_fn': 'str', 'cache_sha256': 'str', '_LOAD_ALLOWED_OPTIONS': 'set[str]'},
                  modifies=['self', 'options'],
                  # `return` inside the region = cache hit: only with a matching header and unchanged used files
-                 ensures=["file_sha256 == cache_sha256.encode('utf8')", 'USEDOK(cached_used_files)'],
+                 ensures=["file_sha256 == cache_sha256.encode('utf8')", 'USEDOK(cached_used_files)',
+                          # ... and with a body that still has the digest recorded for it when the file was written (a damaged body is never unpickled into a parser)
+                          "body_sha256 == SHA(body.decode('latin-1')).encode('utf8')", 'CONTENT(body_f) == body'],
                  ghost={'ensures_fall': ['self.options == old(self.options)', 'self.source_path == old(self.source_path)'],
                         'defaults': {}},
                  raises={},                      # nothing escapes: a stale or damaged file falls back to a rebuild
                  loops={0: dict(inv=['self.options == old(self.options)', 'self.source_path == old(self.source_path)',
                                      'all(implies(j >= _i0 and j < len(_s0), _s0[j] in options) for j in INT)'])},
-                 names={'FS.open': ('contract', 'FS.open'), 'pickle.load': ('contract', 'pickle.load'),
-                        'verify_used_files': ('contract', 'verify_used_files/any')},
+                 names={'FS.open': ('contract', 'FS.open'), 'pickle.load': ('contract', 'pickle.load'), 'BytesIO': ('contract', 'BytesIO'),
+                        'sha256_digest': ('contract', 'lark.utils:sha256_digest'), 'verify_used_files': ('contract', 'verify_used_files/any')},
                  replay=_replay)
